@@ -113,6 +113,13 @@ func (rw *refWeb) respond(req *http.Request, data []byte, total int64, lo int64,
 		}
 	case 9: // stall
 		body.stallAt = st.Choice(len(data) + 1)
+	case 11: // fewer bytes than asked for, announced as such: a consistent, shorter 206
+		if rangeAsked && len(data) > 1 {
+			k := 1 + st.Choice(len(data)-1)
+			body.data = data[:k]
+			cl = int64(k)
+			hdr.Set("Content-Range", fmt.Sprintf("bytes %d-%d/%d", lo, lo+int64(k)-1, total))
+		}
 	case 10: // wrong bytes of the right length
 		d := append([]byte(nil), data...)
 		if len(d) > 0 {
@@ -141,7 +148,7 @@ func (rw *refWeb) behaviour() int {
 	if !rw.hostile {
 		return 0
 	}
-	return rw.st.Weighted(6, 1, 1, 1, 1, 1, 1, 2, 1, 1, 1)
+	return rw.st.Weighted(6, 1, 1, 1, 1, 1, 1, 2, 1, 1, 1, 2)
 }
 
 // getright serves files under /base/.
